@@ -23,14 +23,16 @@ import (
 // therefore not see change.
 
 type hitListener struct {
-	mu   sync.Mutex
-	echo bool
-	flood bool // write as fast as the gateway takes it
-	nwritten int64
-	nopen int
-	hits int
-	got  []byte
-	l    net.Listener
+	mu        sync.Mutex
+	echo      bool
+	flood     bool // write as fast as the gateway takes it
+	linger    bool // keep the connection open after the gateway's end-of-stream (a host that does not hang up by itself)
+	lingering []net.Conn
+	nwritten  int64
+	nopen     int
+	hits      int
+	got       []byte
+	l         net.Listener
 }
 
 func listenBackend(ip string, port int) *hitListener {
@@ -76,6 +78,17 @@ func listenBackend(ip string, port int) *hitListener {
 						c.Write(buf[:n])
 					}
 					if err != nil {
+						h.mu.Lock()
+						linger := h.linger
+						h.mu.Unlock()
+						if linger {
+							// the host does not react to the half-close: only the gateway closing its socket
+							// ends this connection (the listener's stop closes what is left)
+							h.mu.Lock()
+							h.lingering = append(h.lingering, c)
+							h.mu.Unlock()
+							return
+						}
 						c.Close()
 						h.mu.Lock()
 						h.nopen--
@@ -642,9 +655,33 @@ func fdCount(pid int) int {
 
 // bindLeaks: tunnels that end on the real binary give back every descriptor (C11).
 func bindLeaks(rep *Report, prop string) {
-	viol := func(kind, detail string) { rep.violate(prop+"/binary:"+kind, detail, map[string]any{"noreplay": true}) }
+	bindLeaksMode(rep, prop, false)
+	bindLeaksMode(rep, prop, true)
+}
+
+func bindLeaksMode(rep *Report, prop string, hostLingers bool) {
+	viol := func(kind, detail string) {
+		if hostLingers {
+			kind += "/host-does-not-hang-up"
+		}
+		rep.violate(prop+"/binary:"+kind, detail, map[string]any{"noreplay": true})
+	}
 	b := startBind(bindOpts{})
 	defer b.stop()
+	for _, h := range b.be {
+		h.mu.Lock()
+		h.linger = hostLingers
+		h.mu.Unlock()
+	}
+	defer func() {
+		for _, h := range b.be {
+			h.mu.Lock()
+			for _, c := range h.lingering {
+				c.Close()
+			}
+			h.mu.Unlock()
+		}
+	}()
 	rep.add("executions", 1)
 	_, _, tok, why := b.login("alice")
 	if why != "" {
